@@ -610,6 +610,11 @@ func TestVerif_C43_Loops(t *testing.T) {
 				sc.AuthR = append(sc.AuthR, !auth)
 			}
 		}
+		// after the scripted runs the maintainer stays eligible, so that the tip
+		// polls always reach the script end
+		sc.Ready = append(sc.Ready, true)
+		sc.Auth = append(sc.Auth, !sc.Proxy)
+		sc.AuthR = append(sc.AuthR, sc.Proxy)
 		desc := "loop " + verifkit.JSON(sc)
 		w, m := c43NewWorld(sc, base)
 		ctx, cancel := context.WithCancel(context.Background())
